@@ -115,6 +115,36 @@ def specM {N : Type} [DecidableEq N] : Ghost N → Dict N → List (MOp N × Boo
 def specRoundtrip {N : Type} [DecidableEq N] (before after : JValue N) : Option Clause :=
   if before = after then none else some .stateRoundtrip
 
+def origAttrKey : Key := "__original_attributes".toList
+
+/-- The outermost original entries: those with no other entry at a proper prefix of their path.  They
+    say which attributes are modified and what their original values are; entries below another entry
+    are bookkeeping that depends on the order of the modifications and is not compared. -/
+def outermost {N : Type} (o : Dict N) : Dict N :=
+  o.filter (fun e => !(o.any (fun e' => strictBelow (splitDots e'.1) (splitDots e.1))))
+
+def origEntries {N : Type} : Option (JValue N) → Option (Dict N)
+  | none => some []
+  | some .null => some []
+  | some (.obj kvs) => some kvs
+  | some _ => none
+
+/-- Config side of the restart (`before`/`after` = serialised config attributes plus the harness's
+    `__original_attributes`): every config attribute has the identical value, and the same outermost
+    attributes are recorded as modified with the same original values. -/
+def specRestartConfig {N : Type} [DecidableEq N] (before after : JValue N) : Option Clause :=
+  match before, after with
+  | .obj kb, .obj ka =>
+    let fb := dRemove origAttrKey kb
+    let fa := dRemove origAttrKey ka
+    match origEntries (dGet? origAttrKey kb), origEntries (dGet? origAttrKey ka) with
+    | some ob, some oa =>
+      if fb = fa ∧ (outermost oa).all (fun e => (outermost ob).contains e) ∧
+          (outermost ob).all (fun e => (outermost oa).contains e) then none
+      else some .stateRoundtrip
+    | _, _ => some .stateRoundtrip
+  | _, _ => if before = after then none else some .stateRoundtrip
+
 /-! ## (3) kill during a write -/
 
 /-- What the real loader found at the target path. -/
